@@ -299,3 +299,27 @@ func (r *Run) Finish() error {
 	}
 	return os.WriteFile(filepath.Join(r.Out, "summary.json"), b, 0o644)
 }
+
+// toggleElems writes elements on which evaluation WRITES attributes (v-show into a style, the payload
+// attributes of v-text / v-html, the v-once id, class / style merges) - with 0..5 further static attributes,
+// so that parsed attribute slices of every length and spare capacity occur - all driven by the condition
+// cond and the value expressions text / htmlv. A render that changes a shared (cached) copy of such an
+// element shows in a later or concurrent render whose condition or values differ.
+func toggleElems(cond, text, htmlv, coll string) string {
+	var sb strings.Builder
+	pads := []string{"", ` data-p0="0"`, ` data-p0="0" data-p1="1"`, ` data-p0="0" data-p1="1" data-p2="2"`, ` data-p0="0" data-p1="1" data-p2="2" data-p3="3"`, ` data-p0="0" data-p1="1" data-p2="2" data-p3="3" data-p4="4"`}
+	for i, pad := range pads {
+		for _, dir := range []string{"", ` v-text="` + text + `"`, ` v-html="` + htmlv + `"`} {
+			for _, style := range []string{"", ` style="color:red"`, ` style="display:block; margin:0"`} {
+				fmt.Fprintf(&sb, `<p%s v-show="%s"%s%s>t%d</p>`, dir, cond, style, pad, i)
+			}
+			fmt.Fprintf(&sb, `<p%s%s :class="{on: %s}" class="k">c%d</p>`, dir, pad, cond, i)
+			fmt.Fprintf(&sb, `<p%s%s v-once>o%d</p>`, dir, pad, i)
+			fmt.Fprintf(&sb, `<p%s%s v-if="%s" style="top:0" v-show="%s">i%d</p>`, dir, pad, cond, cond, i)
+		}
+		fmt.Fprintf(&sb, `<template v-html="%s"%s></template>`, htmlv, pad)
+		fmt.Fprintf(&sb, `<template v-text="%s"%s></template>`, text, pad)
+		fmt.Fprintf(&sb, `<b v-for="x in %s" v-text="%s"%s v-show="%s" style="left:0"></b>`, coll, text, pad, cond)
+	}
+	return sb.String()
+}
